@@ -301,7 +301,7 @@ Proof.
 Qed.
 
 Section Recurse.
-  Variables (c : cfg) (fuel T : nat) (fw : bool) (ds : list nat) (ws : list Z) (W : Z).
+  Variables (c : cfg) (fuel T : nat) (fw : wty) (ds : list nat) (ws : list Z) (W : Z).
   Hypothesis Hwf : wf_grid ds ws.
   Hypothesis Hnn : Forall (fun w => (0 <= w)%Z) ws.
   Hypothesis Hcc : 2 <= min_chunks c.
@@ -315,7 +315,7 @@ Section Recurse.
   Lemma recurse_ok : forall k sub tot coord,
     sub_ok ds sub -> coord < D -> tot = box_sum sub f -> (tot <= W)%Z ->
     exists t, recurse c fuel T fw ds ws sub tot k coord = Ok t
-              /\ TreeOK D f bal_strong k coord sub t.
+              /\ TreeOK D f (bal_strong fw) k coord sub t.
   Proof.
     induction k as [|k IH]; intros sub tot coord Hsub Hco Htot HW.
     - assert (Hl := sub_ok_length _ _ Hsub).
@@ -336,7 +336,7 @@ Section Recurse.
       assert (Htot0 : (0 <= tot)%Z) by (rewrite Htot; apply box_sum_nonneg; exact Hf0).
       destruct (thresholds fw (tol_bits c) tot) as [mn mx] eqn:Ethr.
       pose proof (Hthr tot ltac:(lia)) as Hok.
-      destruct (thr_ok_b_spec _ _ _ _ _ Ethr Hok) as (H0 & H1 & _).
+      destruct (thr_ok_b_spec _ _ _ _ _ Ethr Hok) as ((H0 & H1 & _) & _).
       (* the side bounds the axis length *)
       destruct (nth_opt_Forall2 _ _ _ _ _ Hsub Hn) as (s & Hs & Hle). cbn [fst snd] in Hle.
       assert (Hsf : s < 2 ^ fuel).
@@ -371,7 +371,7 @@ Section Recurse.
       { replace (p + off) with (off + p) by lia. lia. }
       { lia. }
       rewrite Hl1, Hr1. cbn [bind]. eexists. split; [reflexivity|].
-      eapply (T_node D f bal_strong k coord sub off size (p + off) l r Hn Hsz); try lia.
+      eapply (T_node D f (bal_strong fw) k coord sub off size (p + off) l r Hn Hsz); try lia.
       + unfold node_bal. replace (p + off - off) with p by lia.
         rewrite <- Hw, <- Htot. replace (p + off) with (off + p) by lia. exact Hbal.
       + replace (p + off - off) with p by lia. exact Hl2.
@@ -507,7 +507,7 @@ Theorem grid_rcb_ok c fuel T fw ds ws k :
   (forall t, (0 <= t <= sumZ ws)%Z -> thr_ok_b fw (tol_bits c) t = true) ->
   Forall (fun s => s < 2 ^ fuel) ds ->
   exists ids, grid_rcb c fuel T fw ds ws k (glen ds) = Ok ids
-              /\ C10_spec bal_strong (start_of c ds) ds ws k ids.
+              /\ C10_spec (bal_strong fw) (start_of c ds) ds ws k ids.
 Proof.
   intros (Hcc & Hcs & He2 & He3 & Hs2 & Hs3) Hwf Hsides Hnn Hthr Hfuel.
   pose proof Hwf as (HD & Hlen).
